@@ -23,8 +23,22 @@ C12Cases ==
   \cup {[base |-> Versions, sid |-> "1", ns |-> n, shape |-> sh, order |-> o] :
       n \in {"default", "prefixed"}, sh \in HelloShapes \ {"ok"}, o \in {"before", "after"}}
 
+(* C13: every subset of the information-preserving rewrites *)
+Rewrites == {"pfx", "ws", "pad", "cmt", "attr", "decl", "empt"}
+RECURSIVE SetSeq(_)
+SetSeq(S) == IF S = {} THEN <<>> ELSE LET x == CHOOSE y \in S : TRUE IN <<x>> \o SetSeq(S \ {x})
+C13Cases == {SetSeq(s) : s \in SUBSET Rewrites}
+
+(* C10: every text-valued parameter x every string of up to K1 character classes *)
+Params == {"persist", "persist-id", "cancel-persist-id", "log", "log-after-failed-write", "instance", "xpath", "xpath-get", "url-edit", "url-delete",
+           "text-config", "json-config", "set-config", "subtree-filter", "edit-fragment", "copy-fragment"}
+Classes == {"plain", "lt", "gt", "amp", "quot", "apos", "delim", "nonascii", "space"}
+C10Cases == {[param |-> p, classes |-> c] : p \in Params, c \in SeqsUpTo(Classes, K1)}
+
 Out ==
-  CASE What = "c08" -> ToJson([cases |-> C08Cases])
+  CASE What = "c10" -> ToJson([cases |-> C10Cases])
+    [] What = "c13" -> ToJson([cases |-> C13Cases])
+    [] What = "c08" -> ToJson([cases |-> C08Cases])
     [] What = "c09" -> ToJson([contents |-> C09Contents])
     [] What = "c12" -> ToJson([cases |-> C12Cases])
 ASSUME PrintT(<<"GEN", Out>>)
